@@ -323,7 +323,7 @@ extern "C" void h_bind_answer()
     vpAttr(el, QStringLiteral("type"), ans == 1 ? QStringLiteral("error") : QStringLiteral("result"));
     if (ans != 2) {
         QDomElement b = vpElement(QStringLiteral("bind"), ns_bind.toString());
-        if (ans == 0) { QDomElement j = vpElement(QStringLiteral("jid"), QString()); QString t = vpSymStringNonEmpty(2); vp_dom_set_text(&j, &t); vp_dom_append(&b, &j); }
+        if (ans == 0) { QDomElement j = vpElement(QStringLiteral("jid"), QString()); QString t = vpFixString(2); vp_dom_set_text(&j, &t); vp_dom_append(&b, &j); }
         vp_dom_append(&el, &b);
     }
     fx.q->handlePacketReceived(el);
